@@ -134,7 +134,18 @@ func newBFModel(w *World, pkg string) *bfModel {
 		})
 	}
 	for _, fn := range m.fns {
-		if fn.Parent() != nil || fn.Signature.Recv() != nil || ast.IsExported(fn.Name()) || used[fn] || len(w.Callers[fn]) == 0 {
+		// a method can be reached through an interface only if its receiver type has interface-visible methods that
+		// matter here: the receiver implements Formula, or the method is exported; an unexported method of a helper
+		// type (`(*vars).cnf`) has only the static callers seen in the package, like a plain function
+		dynMethod := false
+		if rv := fn.Signature.Recv(); rv != nil {
+			rt := rv.Type()
+			if p, isP := rt.Underlying().(*types.Pointer); isP {
+				rt = p.Elem()
+			}
+			dynMethod = m.isImpl(rt) || m.isImpl(types.NewPointer(rt)) || m.isImpl(rv.Type())
+		}
+		if fn.Parent() != nil || dynMethod || ast.IsExported(fn.Name()) || used[fn] || len(w.Callers[fn]) == 0 {
 			m.open[fn] = true
 		}
 	}
@@ -1869,10 +1880,30 @@ func (m *bfModel) auxAllocators() map[*ssa.Function]bool {
 				if _, ok := freshIndex(ret.Results[0]); ok {
 					out[fn] = true
 				}
+				// the fresh index may come from a shared numbering step (`return vars.add(dummyVar(name))`)
+				if c, isC := ret.Results[0].(*ssa.Call); isC {
+					if g := c.Call.StaticCallee(); g != nil && returnsFreshIndex(g) {
+						out[fn] = true
+					}
+				}
 			}
 		}
 	}
 	return out
+}
+
+// returnsFreshIndex: every return of g hands back len(<map field>)+1.
+func returnsFreshIndex(g *ssa.Function) bool {
+	n, all := 0, true
+	for _, b := range g.Blocks {
+		if ret, ok := b.Instrs[len(b.Instrs)-1].(*ssa.Return); ok && len(ret.Results) == 1 {
+			n++
+			if _, ok := freshIndex(ret.Results[0]); !ok {
+				all = false
+			}
+		}
+	}
+	return n > 0 && all
 }
 
 func isClauseList(t types.Type) bool {
